@@ -452,4 +452,47 @@ macro "wake_cases" leaf:tacticSeq : tactic =>
         | int n => have hn : n ≠ -1 := fun h => hv (by rw [h]); ($leaf)
         | ptr l => ($leaf)))
 
+/-! ## final forms: source ⊑ generic automaton ⊑ local automaton of an L2 model -/
+
+/-- a waiter call refines the waiter of an L2 model whose local automaton is `lstep` (pcs related by `pcMap`, labels by
+`gw2l`): the private view is unchanged, and under the system-call contract the labels `glabs` of the events are a run of
+the generic waiter from `chk` and their images a run of `lstep` from `pcMap chk` to `pcMap g'`; `g' = done` when the call
+completes, `chk` when the loop budget ran out; otherwise the run is a blocked prefix -/
+def WaiterRefines {pc lab : Type} (F : Loc) (A : Int) (fn : String) (lstep : pc → lab → Option pc)
+    (pcMap : GWPc → pc) (gw2l : GWLabel → List lab) (env : Env) (out : Out) : Prop :=
+  out.env.priv = env.priv ∧
+  (out.events.all (evOk F) = true →
+    ∃ glabs g', labelsOf (absEvW F A fn) out.events = some glabs ∧ runA (gwstep A) .chk glabs = some g' ∧
+      runA lstep (pcMap .chk) (glabs.flatMap gw2l) = some (pcMap g') ∧
+      ((out.ctl = .fuel ∧ g' = .chk) ∨ out.ctl = .blocked ∨ ((out.ctl = .normal ∨ out.ctl = .ret none) ∧ g' = .done)))
+
+theorem WaitPost.refines {pc lab : Type} {F : Loc} {A : Int} {fn : String} {env : Env} {out : Out}
+    (lstep : pc → lab → Option pc) (pcMap : GWPc → pc) (gw2l : GWLabel → List lab)
+    (hsim : ∀ g l g', gwstep A g l = some g' → runA lstep (pcMap g) (gw2l l) = some (pcMap g'))
+    (h : WaitPost F A fn env out) : WaiterRefines F A fn lstep pcMap gw2l env out := by
+  refine ⟨h.1, fun hok => ?_⟩
+  obtain ⟨g', hg, hp⟩ := h.2 hok
+  obtain ⟨glabs, h1, h2⟩ := (accept_iff _ _ _ _ _).1 hg
+  exact ⟨glabs, g', h1, h2, runA_sim _ _ pcMap gw2l hsim _ _ _ h2, hp⟩
+
+/-- a waker call refines waker `i` of an L2 model with local automaton `kstep` -/
+def WakerRefines {ks lab : Type} (F : Loc) (fn : String) (kstep : ks → lab → Option ks)
+    (kMap : GKState → ks) (gk2l : GKLabel → List lab) (env : Env) (out : Out) : Prop :=
+  (∀ l, l ≠ F → out.env.priv l = env.priv l) ∧
+  (out.ctl = .normal ∨ out.ctl = .blocked) ∧
+  (out.events.all (evOk F) = true →
+    ∀ r0, ∃ glabs k', labelsOf (absEvK F fn) out.events = some glabs ∧
+      runA gkstep { kpc := .k1, r := r0 } glabs = some k' ∧
+      runA kstep (kMap { kpc := .k1, r := r0 }) (glabs.flatMap gk2l) = some (kMap k') ∧
+      (out.ctl = .normal → k'.kpc = .k4))
+
+theorem WakePost.refines {ks lab : Type} {F : Loc} {fn : String} {env : Env} {out : Out}
+    (kstep : ks → lab → Option ks) (kMap : GKState → ks) (gk2l : GKLabel → List lab)
+    (hsim : ∀ s l s', gkstep s l = some s' → runA kstep (kMap s) (gk2l l) = some (kMap s'))
+    (h : WakePost F fn env out) : WakerRefines F fn kstep kMap gk2l env out := by
+  refine ⟨h.1, h.2.1, fun hok r0 => ?_⟩
+  obtain ⟨k', hk, hp⟩ := h.2.2 hok r0
+  obtain ⟨glabs, h1, h2⟩ := (accept_iff _ _ _ _ _).1 hk
+  exact ⟨glabs, k', h1, h2, runA_sim _ _ kMap gk2l hsim _ _ _ h2, hp⟩
+
 end UrcuVerif.Src.Futex
